@@ -1,7 +1,7 @@
 (* Dispatch.v — single entry point of the executable model: one s-expression case
    in, one s-expression observation out.  Extracted to OCaml (ocaml/driver.ml) and
    evaluated by vm_compute in the per-run cases.v cross-check. *)
-From SE Require Import Base.Prelude Slots.SlotMapMachine Slots.SlotMachine Lang.LangMachine Parse.ParseMachine Group.GroupMachine Sem.EgMachine Explain.CheckMachine EGraph.ModelMachine EGraph.Model9 Extract.ExtractMachine EGraph.ModelAMachine EGraph.RewriteMachine Run.RunMachine.
+From SE Require Import Base.Prelude Slots.SlotMapMachine Slots.SlotMachine Lang.LangMachine Parse.ParseMachine Group.GroupMachine Sem.EgMachine Explain.CheckMachine EGraph.ModelMachine EGraph.Model9 Extract.ExtractMachine EGraph.ModelAMachine EGraph.RewriteMachine Run.RunMachine Sem.FpMachine.
 
 Definition dispatch (e : sexp) : sexp :=
   match e with
@@ -22,5 +22,6 @@ Definition dispatch (e : sexp) : sexp :=
   | Lst (Sym "eg14" :: args) => run_eg14 args
   | Lst (Sym "egr" :: args) => run_egr args
   | Lst (Sym "egq" :: args) => run_egq args
+  | Lst (Sym "c03" :: args) => run_c03 args
   | _ => Sym "unknown-case"
   end.
